@@ -284,6 +284,7 @@ type jobResult struct {
 	job        job
 	st         stats
 	violations []violation
+	witnesses  []violation
 	wall       time.Duration
 	solverWall time.Duration
 	nSat       int
@@ -301,6 +302,7 @@ func (i *interpreter) runJob(p *program, jb job) jobResult {
 	i.job = jb
 	i.st = stats{unsupportedMsgs: map[string]int{}, covers: map[string]int{}}
 	i.violations = nil
+	i.witnesses = nil
 	i.work = [][]decision{nil}
 	res := jobResult{job: jb}
 	pkg := p.byPath[jb.pkg]
@@ -339,6 +341,7 @@ func (i *interpreter) runJob(p *program, jb job) jobResult {
 	}
 	res.st = i.st
 	res.violations = i.violations
+	res.witnesses = i.witnesses
 	res.wall = time.Since(t0)
 	res.solverWall = i.solver.wall
 	res.nSat, res.nUnsat, res.nUnknown, res.nErr = i.solver.nSat, i.solver.nUnsat, i.solver.nUnknown, i.solver.nErr
@@ -438,6 +441,7 @@ func (i *interpreter) runPath(p *program, pkg *ssa.Package, fn *ssa.Function, pr
 	for k, a := range i.job.args {
 		args[k] = a
 	}
+	nViolBefore := len(i.violations)
 	i.runThreads(func() {
 		call(i, nil, token.NoPos, fn, []value{args})
 	})
@@ -464,6 +468,7 @@ func (i *interpreter) runPath(p *program, pkg *ssa.Package, fn *ssa.Function, pr
 	switch i.path.ended {
 	case "ok":
 		st.pathsOK++
+		i.maybeWitness(nViolBefore)
 	case "assume":
 		st.pathsAssume++
 	case "stop", "fatal":
@@ -523,4 +528,65 @@ func fileHash(path string) string {
 	}
 	h := sha256.Sum256(b)
 	return hex.EncodeToString(h[:8])
+}
+
+
+// maybeWitness keeps, per job, the completed violation-free paths with the
+// smallest trace hashes (a deterministic pseudo-random sample) together with a
+// model of their path condition: the check later runs the natively compiled
+// harness on those inputs and compares outcome and cover labels with what the
+// symbolic execution predicted (validation of the encoding against the real
+// build). Paths whose trace contains scheduling decisions are skipped: the
+// native scheduler cannot be made to follow them.
+func (i *interpreter) maybeWitness(nViolBefore int) {
+	if i.maxWitnesses <= 0 || len(i.violations) != nViolBefore || i.path.truncated {
+		return
+	}
+	h := uint64(14695981039346656037)
+	for _, d := range i.path.trace {
+		if d.W == "sched" || strings.HasPrefix(d.W, "preempt@") || d.W == "select" {
+			return
+		}
+		h ^= uint64(d.N)*31 + uint64(len(d.K))
+		h *= 1099511628211
+		h ^= uint64(d.V)
+		h *= 1099511628211
+	}
+	h ^= h >> 29
+	h *= 0xbf58476d1ce4e5b9
+	h ^= h >> 32
+	if len(i.witnesses) >= i.maxWitnesses {
+		worst := 0
+		for k := range i.witnesses {
+			if i.witnesses[k].hash > i.witnesses[worst].hash {
+				worst = k
+			}
+		}
+		if i.witnesses[worst].hash <= h {
+			return
+		}
+		i.witnesses = append(i.witnesses[:worst], i.witnesses[worst+1:]...)
+	}
+	model := i.path.model
+	if model == nil {
+		i.solver.push()
+		if i.solver.check() == "sat" {
+			model = i.solver.model()
+		}
+		i.solver.pop()
+	}
+	if model == nil {
+		return
+	}
+	v := violation{Kind: "witness", Model: map[string]uint64{}, Harness: i.job.harness, Args: i.job.args, hash: h, Threads: len(i.sch.threads)}
+	for _, in := range i.path.inputs {
+		in.Val = model[in.Name] & maskB(in.W)
+		v.Inputs = append(v.Inputs, in)
+		v.Model[in.Name] = in.Val
+	}
+	for c := range i.path.covers {
+		v.Covers = append(v.Covers, c)
+	}
+	sort.Strings(v.Covers)
+	i.witnesses = append(i.witnesses, v)
 }
